@@ -69,4 +69,9 @@ META = {
   "text": "Interleavings of campaign/renew/resign by several real Election objects, arbitrary passage of (virtual) time and lost calls are generated as plain action sequences; mutual exclusion and the exact lease state are checked after every step against a 10-line reference model. Exploration level; the harness owns the order of calls and the clock.",
   "note": "Decided at the Election API + configuration level (the cmd loop that stops syncing after a failed renewal is not driven); etcd-based election is outside the property's statement.",
  },
+ "C17": {
+  "technique": "property-based testing (rapid) over tool-written bookkeeping states + exhaustive enumeration of every request prefix of each maintenance operation; metamorphic oracle: a clean start after the crash must find a position >= and in the same database as a clean start before the operation",
+  "text": "States are produced with the tool's own field names and normalised by the tool's own start-up; each maintenance operation is cut after every target request and the recovery path (the real UpdateCheckpoint/GetCheckpoint) is run on a clone of the resulting keyspace. Fault enumeration level: the operations issue a few dozen requests at most.",
+  "note": "The bidirectional mode-switch operation is covered by C14's machinery, not here. The tool iterates databases in Go map order, so the replay path repeats a case several times.",
+ },
 }
